@@ -59,6 +59,10 @@ def tasks(tier):
     for ts, (mn, mx) in itertools.product([0.5, 0.9, 1.0], [(1.0, 1.0), (1.0, 5.0), (2.0, 5.0)]):
         out.append({"family": "adaptive", "cfg": {"target": ts, "min": mn, "max": mx, "window": 4},
                     "entry": "adaptive", "bound": d, "weight": 4})
+    # boundary parameterisations: a target so small that 1 - target rounds to 1.0
+    for ts in (1e-300, 2.0 ** -60, 1e-9):
+        out.append({"family": "adaptive", "cfg": {"target": ts, "min": 1.0, "max": 5.0, "window": 4},
+                    "entry": "adaptive", "bound": d - 2, "weight": 2})
     # very long histories inside one window (bounded-memory optimisations must not break the range)
     for ts, (mn, mx) in itertools.product([0.5, 0.9], [(1.0, 3.0), (2.0, 5.0)]):
         out.append({"family": "adaptive-long", "cfg": {"target": ts, "min": mn, "max": mx, "window": 4},
